@@ -248,11 +248,23 @@ Proof.
     pose proof (slack_upd _ k (rearmed_v s) W). lia.
 Qed.
 
+Lemma btr_bo fixed c k s i : hres_bo fixed c s (backoff_then_region_err c k s i).
+Proof.
+  unfold backoff_then_region_err. set (s0 := set_valid false s). assert (A : aux s0 = aux s) by reflexivity.
+  destruct (backoff c k s0) as [s' e| |e] eqn:B; unfold hres_bo.
+  - apply backoff_ok in B as (sl & -> & M & R & _). change (bo_total s0) with (bo_total s) in R. change (bo_excl s0) with (bo_excl s) in R.
+    cbn [bo_ok]. split; [auto|]. split; [reflexivity|]. intros _ X. discriminate.
+  - apply backoff_refused in B. split; [exact I|]. split; [reflexivity|]. intros (_ & _ & D & _) _. split; auto.
+    destruct B as [B|B]; [change (dead s0) with (dead s) in B; congruence|now exists k].
+  - apply backoff_kill in B as (sl & -> & M & R & NC). change (bo_total s0) with (bo_total s) in R. change (bo_excl s0) with (bo_excl s) in R.
+    cbn [bo_ok]. split; [auto|]. split; [reflexivity|]. intros C. exfalso. apply NC. apply (calm_aux c s s0 A C).
+Qed.
+
 Lemma handle_bo fixed c s t o i : hres_bo fixed c s (handle fixed c s t o i).
 Proof.
   assert (DD : dead s = true -> hres_bo fixed c s (HDone s RError [])).
   { intros D. split; [exact I|]. split; [reflexivity|]. intros (_ & _ & D' & _) _. congruence. }
-  destruct o; cbn [handle]; try (apply hint_bo; intros ->; reflexivity); unfold on_send_fail, on_busy; cbv zeta;
+  destruct o; cbn [handle]; try (apply hint_bo; intros ->; reflexivity); try apply btr_bo; unfold on_send_fail, on_busy; cbv zeta;
     try (apply retry_bo; reflexivity); try (apply done_bo; discriminate);
     try (apply wb_bo; reflexivity).
   all: ifs; try (apply DD; first [assumption|reflexivity]); try (apply retry_bo; reflexivity); try (apply done_bo; discriminate);
